@@ -7,6 +7,7 @@ from ..rules_flow import forwarding
 from .common import add_fwd, calls_in
 from .common import check as ob
 from ..canon import Canon, localise, each, custom
+from ..guards import GuardEval
 
 EXPLANATION = (
     'Decides: (a) in each of the four dispatch chains on `mode` (residue, N-terminal, C-terminal rules of '
@@ -76,7 +77,49 @@ def _roles(f):
                         'annotation': custom(searched)}, strict=False)
 
 
-def mode_semantics(ctx, rep, clause):
+from ..guards import HelperRaises as _Raises
+
+
+def _helper_hook(program, module_name):
+    """GuardEval call hook: the decided result of a small private helper (constant returns under decided branches)"""
+    from ..guards import first_exit, GuardEval as GE, UNK as U
+
+    def hook(call, ge):
+        if not isinstance(call.func, ast.Name):
+            return U
+        g = program.find_func(f'{module_name}:{call.func.id}')
+        if g is None or not call.func.id.startswith('_'):
+            return U
+        env = dict(ge.env)
+        names = [p_.name for p_ in g.params]
+        for i, a in enumerate(call.args):
+            if i < len(names):
+                v = ge.eval(a)
+                if v is not U:
+                    env[names[i]] = v
+        for kw in call.keywords:
+            if kw.arg in names:
+                v = ge.eval(kw.value)
+                if v is not U:
+                    env[kw.arg] = v
+        sub = GE(env, Canon(g.node).aliases(), hook)
+        exits = first_exit(g.node.body, sub)
+        if len(exits) == 1 and isinstance(exits[0][0], ast.Raise):
+            raise _Raises()
+        if len(exits) == 1 and isinstance(exits[0][0], ast.Return):
+            r = exits[0][0].value
+            return None if r is None else GE(env, Canon(g.node).aliases(), hook).eval(r)
+        return U
+    return hook
+
+
+def site_decisions(ctx, rep, clause):
+    """what happens at a matched site, as a decision table read off the code: for every adder call of a builder the
+    body of its loop is specialised under (mode, site already modified?) -- chains of elifs, guard clauses and a helper
+    that turns the mode into the append flag are read alike.  Expected: an unmodified site is appended to; a modified
+    one is overwritten (append=False) / appended to (append=True) / left alone, according to the mode; any other mode
+    raises ValueError."""
+    from ..guards import specialise, UNK as U
     program = ctx.program
     mod = program.module(MB)
     lit = mod.assigns.get('ModMode')
@@ -86,81 +129,85 @@ def mode_semantics(ctx, rep, clause):
     listed = {x.value for x in vals.elts} if isinstance(vals, (ast.List, ast.Tuple)) else set()
     ob(rep, 'EXH', MB, 'ModMode literal == MOD_MODE_VALUES', members == listed == {'skip', 'append', 'overwrite'},
        f'{sorted(members)}', f'literal {sorted(members)} vs list {sorted(listed)}', mod.relpath, clause)
-    n_chains = 0
-    labels_seen: Dict[str, int] = {}
+    hook = _helper_hook(program, MB)
+    want = {('skip', True): ('none', None), ('append', True): ('add', True), ('overwrite', True): ('add', False),
+            ('skip', False): ('add', True), ('append', False): ('add', True), ('overwrite', False): ('add', True),
+            ('bogus', True): ('raise', None)}
+    n_sites = 0
     for fname in ('apply_static_mods', '_apply_variable_mods_rec'):
-        f = _roles(program.func(f'{MB}:{fname}'))
-        for node in sorted((x for x in walk_own(f.node) if isinstance(x, ast.If)), key=lambda x: x.lineno):
-            if not isinstance(node, ast.If):
-                continue
-            ch = _mode_chain(node)
-            if ch is None or len(ch) < 3:
-                continue
-            # only outermost chain heads
-            if any(isinstance(p, ast.If) and node in p.orelse and _mode_chain(p) for p in walk_own(f.node)):
-                continue
-            n_chains += 1
-            handled = set(ch) - {'<else>'}
-            # a chain is named after the site it edits (the adder it calls), not after its position in the file
-            first = _adder_call(ch.get('overwrite', [])) or _adder_call(ch.get('append', []))
-            site = first.func.attr[len('add_'):] if first is not None else 'no-adder'
-            labels_seen[f'{fname}/{site}'] = labels_seen.get(f'{fname}/{site}', 0) + 1
-            where = f'{site} chain' + (f' #{labels_seen[f"{fname}/{site}"]}' if labels_seen[f'{fname}/{site}'] > 1 else '')
-            ob(rep, 'EXH', f.fq, f'{where} handles every mode', handled == members,
-               f'{sorted(handled)}', f'handles {sorted(handled)}, the literal has {sorted(members)}', f.loc(node), clause)
-            for mname, flag in (('overwrite', False), ('append', True)):
-                c = _adder_call(ch.get(mname, []))
-                got = _append_flag(c) if c is not None else None
-                ob(rep, 'SIB-mode', f.fq, f"{where}: mode '{mname}' calls the adder with append={flag}",
-                   c is not None and got is flag, norm_stmt(c) if c is not None else '',
-                   f"mode '{mname}' " + ('calls no adder' if c is None else f'calls `{norm_stmt(c)}` (append={got})') +
-                   f": existing modifications of the site are {'kept' if flag is False else 'replaced'} although the "
-                   f"mode says otherwise", f.loc(c) if c is not None else f.loc(node), clause)
-            sk = ch.get('skip', [])
-            ob(rep, 'SIB-mode', f.fq, f"{where}: mode 'skip' leaves the site alone",
-               len(sk) == 1 and isinstance(sk[0], ast.Continue), 'continue',
-               f"mode 'skip' executes `{'; '.join(norm_stmt(s) for s in sk)}`", f.loc(node), clause)
-            el = ch.get('<else>', [])
-            ok = len(el) == 1 and isinstance(el[0], ast.Raise) and norm_stmt(el[0].exc.func) == 'ValueError'
-            ob(rep, 'SIB-mode', f.fq, f'{where}: any other mode raises ValueError', ok, 'raise ValueError',
-               'an unknown mode is silently ignored', f.loc(node), clause)
-            # the unmodified-site branch (the else of the enclosing "already modified?" test) appends
-            parent = None
-            for p in walk_own(f.node):
-                if isinstance(p, ast.If) and node in p.body and p.orelse:
-                    parent = p
-            c = _adder_call(parent.orelse) if parent is not None else None
-            ob(rep, 'SIB-mode', f.fq, f'{where}: an unmodified site is modified regardless of the mode',
-               c is not None and _append_flag(c) is True, norm_stmt(c) if c is not None else '',
-               'the branch for a site without existing modification does not add the modification', f.loc(node), clause)
-            if parent is not None:
-                t = norm_stmt(parent.test)
-                pt = parent.test
-                asks = isinstance(pt, ast.Call) and isinstance(pt.func, ast.Attribute) and \
-                    pt.func.attr.startswith('has_') and isinstance(pt.func.value, ast.Name)
-                ob(rep, 'SIB-mode', f.fq, f'{where}: the conflict test asks the annotation about a site',
-                   asks, t, f'conflict test is `{t}`', f.loc(parent), clause)
-                # ... the *input* annotation, not the copy that is being edited (rules applied earlier in the same
-                # call would otherwise count as pre-existing modifications)
-                edited_objs = {norm_stmt(c.func.value) for blk in (ch.get('overwrite', []), ch.get('append', []),
-                                                                   parent.orelse)
-                               for c in [_adder_call(blk)] if c is not None}
-                asked_obj = norm_stmt(pt.func.value) if asks else None
-                if fname == 'apply_static_mods':
-                    ob(rep, 'SIB-mode', f.fq, f'{where}: the conflict test looks at the input, not at the copy being edited',
-                       asked_obj is not None and asked_obj not in edited_objs, f'asks `{asked_obj}`, edits {sorted(edited_objs)}',
-                       f'"already modified?" is asked of `{asked_obj}`, the object the rules are written to: a residue '
-                       f'matched by two rules is unmodified in the input but counts as modified for the second rule, so '
-                       f'skip drops it and overwrite replaces the first rule\'s modification', f.loc(parent), clause)
-                # ... and about the very site the chain edits: has_<site>... guards add_<site>...
-                asked = _site_of(pt.func.attr) if asks else None
-                edited = {_site_of(c.func.attr) for blk in (ch.get('overwrite', []), ch.get('append', []), parent.orelse)
-                          for c in [_adder_call(blk)] if c is not None}
-                ob(rep, 'SIB-mode', f.fq, f'{where}: the conflict test looks at the site the chain edits',
-                   asked is not None and edited == {asked}, f'has_{asked}* guards add_{asked}*',
-                   f'the chain edits {sorted(x or "?" for x in edited)} but decides "already modified?" with `{t}` '
-                   f'({asked}): the mode is applied according to the state of another site', f.loc(parent), clause)
-    rep.floor('SIB-mode', 'dispatch chains on mode', n_chains, 4)
+        f = program.func(f'{MB}:{fname}')
+        c = Canon(f.node)
+        # the blocks that decide about one site: innermost loop (or the function body) around each group of adder calls
+        adders = [x for x in walk_own(f.node) if isinstance(x, ast.Call) and isinstance(x.func, ast.Attribute) and
+                  x.func.attr.startswith('add_') and _site_of(x.func.attr) in ('internal', 'nterm', 'cterm')]
+        blocks = {}
+        for a_ in adders:
+            loops = [l for l in walk_own(f.node) if isinstance(l, ast.For) and any(y is a_ for y in ast.walk(l))]
+            inner = min(loops, key=lambda l: sum(1 for _ in ast.walk(l))) if loops else f.node
+            blocks.setdefault(id(inner), (inner, []))[1].append(a_)
+        for inner, calls in blocks.values():
+            site = _site_of(calls[0].func.attr)
+            n_sites += 1
+            has_calls = {norm_stmt(x) for x in ast.walk(inner) if isinstance(x, ast.Call) and isinstance(x.func, ast.Attribute)
+                         and x.func.attr.startswith('has_') and _site_of(x.func.attr) == site}
+            asked = {_site_of(x.func.attr) for x in ast.walk(inner) if isinstance(x, ast.Call) and
+                     isinstance(x.func, ast.Attribute) and x.func.attr.startswith('has_') and
+                     _site_of(x.func.attr) in ('internal', 'nterm', 'cterm')}
+            ob(rep, 'SIB-mode', f.fq, f'{site} sites: "already modified?" is asked about the site that is edited',
+               asked == {site}, f'has_{site}* decides about add_{site}*',
+               f'the block that edits {site} sites asks about {sorted(asked)}: the mode is applied according to the '
+               f'state of another site', f.loc(calls[0]), clause)
+            if fname == 'apply_static_mods':
+                edited = {norm_stmt(x.func.value) for x in calls}
+                asked_obj = {norm_stmt(x.func.value) for x in ast.walk(inner) if isinstance(x, ast.Call) and
+                             isinstance(x.func, ast.Attribute) and x.func.attr.startswith('has_') and
+                             _site_of(x.func.attr) == site}
+                ob(rep, 'SIB-mode', f.fq, f'{site} sites: the conflict test looks at the input, not at the copy being edited',
+                   bool(asked_obj) and not (asked_obj & edited), f'asks {sorted(asked_obj)}, edits {sorted(edited)}',
+                   f'"already modified?" is asked of {sorted(asked_obj & edited)}, the object the rules are written to: a '
+                   f'residue matched by two rules is unmodified in the input but counts as modified for the second '
+                   f'rule, so skip drops it and overwrite replaces the first rule\'s modification', f.loc(calls[0]), clause)
+            body = inner.body if isinstance(inner, ast.For) else inner.body
+            for (mode, am), (kind, flag) in want.items():
+                env = {'mode': mode}
+                for h in has_calls:
+                    env[h] = am
+                # the index tests of the terminal rules hold for the site under consideration
+                for x in ast.walk(inner):
+                    if isinstance(x, ast.Compare) and len(x.ops) == 1 and isinstance(x.ops[0], (ast.Eq, ast.NotEq)) and \
+                            any(isinstance(y, ast.Name) and any(k_ == 'each' for k_, _p in c.bindings.get(y.id, []))
+                                for y in ast.walk(x.left)) and 'mode' not in norm_stmt(x):
+                        env[norm_stmt(x)] = isinstance(x.ops[0], ast.Eq)
+                got = None
+                try:
+                    ge = GuardEval(env, c.aliases(), hook)
+                    marks = {}
+                    for st in specialise(body, ge, marks):
+                        if isinstance(st, ast.Raise):
+                            got = ('raise', None)
+                            break
+                        if isinstance(st, (ast.Continue, ast.Return)) and marks.get(id(st)):
+                            break
+                        hit = [x for x in ast.walk(st) if any(x is a_ for a_ in calls)]
+                        if hit and got is None:
+                            call = hit[0]
+                            fl = call.args[-1] if call.args else None
+                            for kw in call.keywords:
+                                if kw.arg == 'append':
+                                    fl = kw.value
+                            v = ge.eval(fl) if fl is not None else U
+                            got = ('add', v if v is not U else '?')
+                            if marks.get(id(st)):
+                                break
+                except _Raises:
+                    got = ('raise', None)
+                got = got or ('none', None)
+                ob(rep, 'SIB-mode', f.fq, f"{site} sites: mode '{mode}' on a{'n already modified' if am else 'n unmodified'} site",
+                   got == (kind, flag), f'{got[0]}' + (f' with append={got[1]}' if got[0] == 'add' else ''),
+                   f"for mode '{mode}' and a site that is {'already' if am else 'not yet'} modified the builder does: "
+                   f"{got[0]}" + (f' with append={got[1]}' if got[0] == 'add' else '') + f"; expected: {kind}" +
+                   (f' with append={flag}' if kind == 'add' else ''), f.loc(calls[0]), clause)
+    rep.floor('SIB-mode', 'site blocks in the builders', n_sites, 4)
 
 
 def site_computation(ctx, rep, clause):
@@ -340,7 +387,7 @@ def single_expansion(ctx, rep, clause):
 def check(ctx, rep):
     rep.explanation = EXPLANATION
     an, program = ctx.analyzer, ctx.program
-    mode_semantics(ctx, rep, 'C13a')
+    site_decisions(ctx, rep, 'C13a')
     site_computation(ctx, rep, 'C13b')
     site_index_offset(ctx, rep, 'C13b')
     counter_sibling(ctx, rep, 'C13a')
